@@ -78,6 +78,7 @@ type c02Req struct {
 	prod     int
 	admitted bool
 	handed   int
+	dropped  bool   // the persistent queue could not read it back (injected storage fault)
 	finished bool   // the completion callback has run (the queue released the request's size)
 	answered bool   // the backend has answered (the outcome exists)
 	doneAt   string // lock-yield id at which the completing consumer is parked inside the completion callback
@@ -128,6 +129,9 @@ type c02Sim struct {
 	inSched   atomic.Bool    // the scheduler goroutine itself is calling into the queue: never park
 	quiet     bool           // quiet / abort phase: nothing parks any more
 	doneEvReq *c02Req        // request whose backend answer is this step's event
+
+	droppedIdx []int // item indexes whose read failed (storage fault), not yet folded into the model
+	admitSeq   []int // request ids in admission order = item index order of the persistent queue
 }
 
 type c02Cfg struct {
@@ -142,6 +146,9 @@ type c02Cfg struct {
 	MidShut    bool   `json:"shutdown_mid_run"`
 	Yields     bool   `json:"yield_hooks"`
 	LockYields bool   `json:"lock_site_yields"`
+	// ReadFaults: ordinals (1-based) of the persistent queue's item reads that fail with a storage error: the queue
+	// drops such an item (it cannot be handed over), everything else must carry on
+	ReadFaults []int `json:"storage_read_faults,omitempty"`
 }
 
 var errBackend = errors.New("sim backend failure")
@@ -167,6 +174,12 @@ func c02Config(tp *simkit.Tape) c02Cfg {
 	c.MidShut = tp.Chance(1, 6)
 	c.Yields = c.Block && tp.Chance(2, 3)
 	c.LockYields = tp.Chance(1, 2)
+	if c.Persistent && c.Producers == 1 && tp.Chance(1, 2) {
+		n := tp.Range(1, 2)
+		for i := 0; i < n; i++ {
+			c.ReadFaults = append(c.ReadFaults, tp.Range(1, 6))
+		}
+	}
 	return c
 }
 
@@ -213,6 +226,27 @@ func runC02(r *simkit.Run) {
 	disk := NewDisk()
 	inc := disk.NewIncarnation(1)
 	host := &simHost{ext: map[component.ID]component.Component{storageID: inc}}
+	if len(cfg.ReadFaults) > 0 {
+		reads := 0
+		inc.FailIf = func(_ int, ops []string) bool {
+			for _, op := range ops {
+				var idx int
+				if n, _ := fmt.Sscanf(op, "get(%d)", &idx); n == 1 {
+					reads++
+					for _, f := range cfg.ReadFaults {
+						if f == reads {
+							s.mu.Lock()
+							s.droppedIdx = append(s.droppedIdx, idx)
+							s.mu.Unlock()
+							r.Count("fault.storage_read_error")
+							return true
+						}
+					}
+				}
+			}
+			return false
+		}
+	}
 
 	qcfg := queuebatch.Config{
 		Enabled: true, WaitForResult: cfg.Wait, Sizer: s.sizerType(), QueueSize: cfg.Cap,
@@ -724,10 +758,33 @@ func (s *c02Sim) observe(ev string) {
 	for _, q := range admittedNow {
 		s.size += q.size
 		s.fifo = append(s.fifo, q.id)
+		s.admitSeq = append(s.admitSeq, q.id)
 		r.Logf("  admitted r%03d", q.id)
 		p := s.prods[q.prod]
 		if (ev == fmt.Sprintf("offer:p%d", p.id) || strings.Contains(ev, fmt.Sprintf("release:yield:p%d:lock:", p.id))) && p.sizeAtOffer+q.size > cfg.Cap {
 			r.Failf("refusal", "accepted-over-capacity", "r%03d (size %d) accepted although reported size %d + %d > capacity %d", q.id, q.size, p.sizeAtOffer, q.size, cfg.Cap)
+		}
+	}
+
+	// 2b. items the persistent queue could not read back (injected storage fault): dropped, never handed over
+	s.mu.Lock()
+	dropped := s.droppedIdx
+	s.droppedIdx = nil
+	s.mu.Unlock()
+	for _, idx := range dropped {
+		if idx < 0 || idx >= len(s.admitSeq) {
+			r.Failf("harness", "dropped-index", "storage read fault on item index %d, %d requests admitted", idx, len(s.admitSeq))
+			continue
+		}
+		q := s.req(s.admitSeq[idx])
+		r.Logf("  r%03d dropped by the queue: its read from storage failed", q.id)
+		q.dropped, q.finished, q.answered = true, true, true
+		s.size -= q.size
+		for i, x := range s.fifo {
+			if x == q.id {
+				s.fifo = append(s.fifo[:i], s.fifo[i+1:]...)
+				break
+			}
 		}
 	}
 
@@ -844,7 +901,7 @@ func (s *c02Sim) finalChecks(shutFired bool) {
 	}
 	for _, q := range s.reqs {
 		switch {
-		case q.admitted && q.handed == 0 && !q.postShut && !(q.size == 0 && !s.cfg.Persistent):
+		case q.admitted && q.handed == 0 && !q.postShut && !q.dropped && !(q.size == 0 && !s.cfg.Persistent):
 			r.Failf("handoff", "never", "accepted request r%03d was never handed to a consumer", q.id)
 		case !q.admitted && q.handed > 0:
 			r.Failf("handoff", "not-accepted", "request r%03d was handed over although its enqueue did not succeed", q.id)
@@ -855,6 +912,6 @@ func (s *c02Sim) finalChecks(shutFired bool) {
 var HarnessC02 = simkit.Harness{
 	Prop: "C02", Name: "exp/c02", Run: runC02, StepTimeout: 6e9,
 	Real: []string{"queuebatch.QueueBatch (obsQueue, asyncQueue, memoryQueue, persistentQueue, cond, disabledBatcher)", "OTel metrics SDK (manual reader) for the size/capacity gauges"},
-	Stub: []string{"request type with tape-chosen sizes", "export function (parks until the scheduler answers)", "storage extension (simdisk, no faults in C02)"},
+	Stub: []string{"request type with tape-chosen sizes", "export function (parks until the scheduler answers)", "storage extension (simdisk; optional injected read errors on the persistent queue's item reads, no crashes in C02)"},
 	Rule: "one run = one tape-drawn configuration (queue kind, sizer, capacity, consumers, block_on_overflow, wait_for_result, producers, yield sites) and one event schedule (offer / backend answer ok|err / producer cancellation / yield release / shutdown), stepped one event per quiescence; distinct = distinct hash of the named event log; non-trivial = at least one producer was blocked for space or >=2 exports were in flight at some step",
 }
